@@ -9,18 +9,34 @@ import (
 )
 
 //verif:config VerifC05 native=no idealhash=yes maxpaths=200000
+//verif:config VerifC05tamper native=no idealhash=yes maxpaths=200000
 
 // c05tree: a committed IAVL tree (real MutableTree + node DB over the model DB) holding 1..N
 // entries with keys from a small concrete set and arbitrary 1-byte values, in arbitrary insertion
 // order, plus the reference map.
-func c05tree() (*MutableTree, []byte, *modelkv.Store) {
+func c05tree(max int) (*MutableTree, []byte, *modelkv.Store) {
 	tree, err := NewMutableTree(modelkv.NewUnorderedDB(), 100)
 	v.Assert(err == nil, "tree-created")
 	ref := modelkv.New()
 	keys := [][]byte{{0x10}, {0x20}, {0x30}, {0xFF}} // (0xFF: the greatest 1-byte key)
-	n := 1 + v.Choice(2+v.Tier())
-	for i := 0; i < n; i++ {
-		k, val := keys[v.Choice(len(keys))], v.Bytes(1)
+	// an arbitrary non-empty subset of the keys (at most max of them), inserted in ascending or
+	// descending order (two different tree shapes), with arbitrary values
+	var chosen [][]byte
+	for _, k := range keys {
+		if len(chosen) < max && v.Choice(2) == 1 {
+			chosen = append(chosen, k)
+		}
+	}
+	if len(chosen) == 0 {
+		chosen = append(chosen, keys[v.Choice(len(keys))])
+	}
+	if v.Choice(2) == 1 {
+		for i, j := 0, len(chosen)-1; i < j; i, j = i+1, j-1 {
+			chosen[i], chosen[j] = chosen[j], chosen[i]
+		}
+	}
+	for _, k := range chosen {
+		val := v.Bytes(1)
 		tree.Set(k, val)
 		ref.SetRaw(k, val)
 	}
@@ -36,7 +52,7 @@ func c05tree() (*MutableTree, []byte, *modelkv.Store) {
 // for a present key, or the proof with any single field of any node altered (SHA-256 idealised as
 // injective).
 func VerifC05() {
-	tree, root, ref := c05tree()
+	tree, root, ref := c05tree(4)
 	p := v.Bytes(1)
 	want := ref.GetRaw(p)
 	value, proof, err := tree.GetVersionedWithProof(p, 1)
@@ -52,6 +68,21 @@ func VerifC05() {
 		v.Assert(proof.VerifyAbsence(p) == nil, "absence-proof-accepted")
 		v.Assert(proof.VerifyItem(p, v.Bytes(1)) != nil, "existence-of-an-absent-key-refused")
 	}
+	// the same proof presented for ANOTHER key: it must not prove absence of a key that is stored
+	// nor existence of anything at a key it was not produced for
+	q := v.Bytes(1)
+	if qv := ref.GetRaw(q); qv != nil {
+		v.Assert(proof.VerifyAbsence(q) != nil, "proof-reused-for-a-stored-key-does-not-prove-its-absence")
+	} else {
+		v.Assert(proof.VerifyItem(q, v.Bytes(1)) != nil, "proof-reused-for-an-absent-key-does-not-prove-existence")
+	}
+}
+
+// VerifC05tamper: the proof for an arbitrary key with the root, or any single field of any of
+// its nodes, altered does not verify.
+func VerifC05tamper() {
+	tree, root, _ := c05tree(2 + v.Tier())
+	p := v.Bytes(1)
 	// a different root
 	bad := append([]byte{}, root...)
 	mask := v.U8()
